@@ -49,10 +49,10 @@ def collect(chk, prop):
         # two interchangeable 2-clique topologies: the excess keys of both topologies live in the same small set, so a
         # pairing that is forbidden in one topology is typically a legal key of the other
         for i in range(300 if thorough else 40):
-            plans.append((rng.choice([12, 16, 24]), [2, 2], rng.choice([1.0, 1.5]), "manyholes", rng.choice([1, 3, 6]), -1))
+            plans.append((rng.choice([12, 16, 24]), [2, 2], rng.choice([1.0, 1.5]), rng.choice(["manyholes", "complement"]), rng.choice([1, 3, 6]), -1))
         # corners whose edges have different topologies (diamond hubs), many absent pairings
         for i in range(400 if thorough else 70):
-            plans.append((rng.choice([12, 16, 24]), rng.choice([["w"], ["w"], ["w", 2], ["d"], [2, "d"]]), rng.choice([0.8, 1.1, 1.5]), rng.choice(["holes", "holes", "manyholes", "random"]),
+            plans.append((rng.choice([12, 16, 24]), rng.choice([["w"], ["w"], ["w", 2], ["d"], [2, "d"]]), rng.choice([0.8, 1.1, 1.5]), rng.choice(["complement", "complement", "holes", "random"]),
                           rng.choice([1, 3, 6]), -1))
     for n, sizes, dens, mode, limit, search in plans:
         names = ["2-clique", "2-clique-blue"] if sizes == [2, 2] else None
